@@ -86,6 +86,27 @@ CLAIMS = {
         "Trusted: rustc / driver / engine; chrono arithmetic; parking_lot / std RwLock semantics; the reviewed DELETERS table in rules/C09.py.",
         "static analysis: call-graph who-may-call, iterator-chain provenance with closure predicate normalisation, guard-span liveness, linear-form extraction",
         "DESIGN.md §3 C09"),
+    "C11": (
+        "Who-may-call over lib and all binaries: R1 every planning call is SessionContext::sql_with_options whose options are built by SQLOptions::new() with "
+        "with_allow_ddl(false), with_allow_dml(false), with_allow_statements(false) (builder chain followed by provenance, literal arguments checked); no call "
+        "of any other planning / plan-execution entry of the embedded engine (SessionContext::sql, execute_logical_plan, SessionState::create_logical_plan, "
+        "statement_to_plan, DataFrame::new / write_*, read_*, register_*-by-URL ...) exists; the session's catalog is touched only by the engine's table "
+        "registration; the SessionContext field is private and not handed out; R2 the query side issues no object-store writes except the caching store's "
+        "delegations. Given DataFusion's verify_plan semantics this IS the property for statements arriving through the engine's entry points.",
+        "Trusted: DataFusion 44 SQLOptions::verify_plan walks the whole logical plan and rejects Ddl/Dml/Copy/Statement before execution (checked in the vendored "
+        "source); rustc callee resolution; the FORBIDDEN / CATALOG_OK tables in rules/C11.py.",
+        "static analysis: resolved call-graph who-may-call with argument provenance (lib + binaries)",
+        "DESIGN.md §3 C11"),
+    "C13": (
+        "R1 object store: every token-carrying save of a shard document is dominated by the equal edge of loaded.generation == expected_generation read in "
+        "the same retry iteration, creation only on the load's not-found edge with expected == 0 and the create-if-absent token, a mismatch cannot end in Ok; "
+        "R2 stored generation = expected + 1 (creation: 1) in both backends, saved value = the caller's metadata with that generation; R3 atomicity: object "
+        "store - C02's token/content and no-Ok-after-failed-save rules restricted to the shard object; in-memory backend and router cache - no fresh "
+        "DashMap::insert/remove after a comparison unless an entry guard of that map is held, stores go through the OccupiedEntry/VacantEntry that served "
+        "the comparison (guard-span must-analysis). Not decided: histories of state transitions (active/splitting/pending deletion).",
+        "Trusted: rustc / driver / engine; dashmap's entry API holds the shard lock for the entry's lifetime; atomic conditional PUT.",
+        "static analysis: MIR comparison-edge dominance, value provenance, guard-span liveness",
+        "DESIGN.md §3 C13"),
 }
 
 NOT_YET = "rule set under construction in this round; see DESIGN.md §3 for the planned static rules"
